@@ -1071,3 +1071,172 @@ Proof. intros He Hc. unfold iscomplex_pair. rewrite He. simpl. exact Hc. Qed.
 
 Theorem complex_expected_counts e c : iscomplexobj e = Ok true -> iscomplex_pair e c = Ok true.
 Proof. intros He. unfold iscomplex_pair. rewrite He. reflexivity. Qed.
+
+
+(* ------------------------------------------------------------------------------------------ *)
+(** * compare_molrecs: the normalisation *)
+
+Lemma norm_files_idem l : forall l', norm_files l = Ok l' -> norm_files l' = Ok l'.
+Proof.
+  induction l as [|t l IH]; intros l' H; simpl in H.
+  - inversion H; reflexivity.
+  - destruct t as [np [| | | | |s|]| | | |]; try discriminate.
+    destruct (norm_files l) as [r| |] eqn:E; simpl in H; try discriminate. inversion H; subst.
+    simpl. rewrite (IH r eq_refl). reflexivity.
+Qed.
+
+Lemma norm_seps_idem ss : forall r, norm_seps ss = Ok r -> exists ss', scalars_of r = Some ss' /\ norm_seps ss' = Ok r.
+Proof.
+  induction ss as [|s ss IH]; intros r H; simpl in H.
+  - inversion H; subst. exists []. split; reflexivity.
+  - destruct (norm_sep s) as [t|] eqn:Es; try discriminate.
+    destruct (norm_seps ss) as [r'| |] eqn:E; simpl in H; try discriminate. inversion H; subst.
+    destruct (IH r' eq_refl) as (ss' & H1 & H2).
+    destruct s; simpl in Es; try discriminate; inversion Es; subst; simpl; rewrite H1;
+      eexists; (split; [reflexivity|]); simpl; rewrite H2; reflexivity.
+Qed.
+
+Lemma norm_separators_idem v v' : norm_separators v = Ok v' -> norm_separators v' = Ok v'.
+Proof.
+  assert (K : forall ss r, norm_seps ss = Ok r -> norm_separators (TList r) = Ok (TList r)).
+  { intros ss r H. destruct (norm_seps_idem _ _ H) as (ss' & H1 & H2). simpl. rewrite H1, H2. reflexivity. }
+  destruct v as [| l | | dt sh data |]; simpl; try discriminate.
+  - destruct (scalars_of l) as [ss|]; try discriminate.
+    destruct (norm_seps ss) as [r| |] eqn:E; simpl; try discriminate. intro H; inversion H; subst. eapply K; eauto.
+  - destruct dt; try discriminate. destruct sh as [|n [|? ?]]; try discriminate.
+    destruct (norm_seps data) as [r| |] eqn:E; simpl; try discriminate. intro H; inversion H; subst. eapply K; eauto.
+Qed.
+
+Definition bond_fixed (t : tree) : Prop := norm_bond t = Some t.
+
+Lemma norm_bond_idem t t' : norm_bond t = Some t' -> bond_fixed t'.
+Proof.
+  unfold bond_fixed. destruct t as [|l| | |]; try discriminate.
+  destruct l as [|[na [| |a| | | |]| | | |] [|[nb [| |b| | | |]| | | |] [|bo [|? ?]]]]; try discriminate.
+  simpl. intro H; inversion H; subst; clear H.
+  destruct (b <? a)%Z eqn:E1; destruct (a <? b)%Z eqn:E2; simpl;
+    rewrite ?Z.ltb_irrefl, ?E1, ?E2; reflexivity.
+Qed.
+
+Lemma norm_bonds_fixed l : Forall bond_fixed l -> norm_bonds l = Some l.
+Proof. induction 1 as [|t l Ht Hl IH]; simpl; [reflexivity|]. rewrite Ht, IH. reflexivity. Qed.
+
+Lemma norm_bonds_idem l : forall l', norm_bonds l = Some l' -> Forall bond_fixed l'.
+Proof.
+  induction l as [|t l IH]; intros l' H; simpl in H.
+  - inversion H; constructor.
+  - destruct (norm_bond t) as [t'|] eqn:Et; try discriminate. destruct (norm_bonds l) as [r|] eqn:Er; try discriminate.
+    inversion H; subst. constructor; [eapply norm_bond_idem; eauto | apply IH; reflexivity].
+Qed.
+
+Lemma insert_Forall (P : tree -> Prop) x s : P x -> Forall P s -> Forall P (insert_bond x s).
+Proof.
+  intros Hx Hs. induction Hs as [|y s Hy Hs IH]; simpl; [constructor; [assumption|constructor]|].
+  destruct (key_of x <=? key_of y)%Z; repeat constructor; assumption.
+Qed.
+
+Lemma sort_Forall (P : tree -> Prop) l : Forall P l -> Forall P (sort_bonds l).
+Proof. induction 1; simpl; [constructor | apply insert_Forall; assumption]. Qed.
+
+Fixpoint sorted (s : list tree) : Prop :=
+  match s with
+  | [] => True
+  | x :: r => match r with [] => True | y :: _ => (key_of x <= key_of y)%Z end /\ sorted r
+  end.
+
+Lemma insert_sorted x s : sorted s -> sorted (insert_bond x s).
+Proof.
+  induction s as [|y s IH]; simpl; intro H; [split; exact I|].
+  destruct (key_of x <=? key_of y)%Z eqn:E.
+  - apply Z.leb_le in E. simpl. repeat split; try assumption; apply H.
+  - apply Z.leb_gt in E. destruct H as [H1 H2]. specialize (IH H2). simpl. split; [|exact IH].
+    destruct s as [|z s]; simpl.
+    + lia.
+    + destruct (key_of x <=? key_of z)%Z; lia.
+Qed.
+
+Lemma sort_sorted l : sorted (sort_bonds l).
+Proof. induction l; simpl; [exact I | apply insert_sorted; assumption]. Qed.
+
+Lemma sort_of_sorted s : sorted s -> sort_bonds s = s.
+Proof.
+  induction s as [|x r IH]; simpl; intro H; [reflexivity|]. destruct H as [H1 H2]. rewrite (IH H2).
+  destruct r as [|y r']; simpl; [reflexivity|]. apply Z.leb_le in H1. rewrite H1. reflexivity.
+Qed.
+
+(** the stable sort on the first atom is idempotent *)
+Lemma sort_bonds_idem l : sort_bonds (sort_bonds l) = sort_bonds l.
+Proof. apply sort_of_sorted, sort_sorted. Qed.
+
+Lemma norm_connectivity_idem v v' : norm_connectivity v = Ok v' -> norm_connectivity v' = Ok v'.
+Proof.
+  destruct v as [|l| | |]; simpl; try discriminate.
+  destruct (norm_bonds l) as [l'|] eqn:E; try discriminate. intro H; inversion H; subst. simpl.
+  rewrite (norm_bonds_fixed _ (sort_Forall _ _ (norm_bonds_idem _ _ E))), sort_bonds_idem. reflexivity.
+Qed.
+
+Lemma norm_files_v_idem v v' : norm_files_v v = Ok v' -> norm_files_v v' = Ok v'.
+Proof.
+  destruct v as [|l| | |]; simpl; try discriminate.
+  destruct (norm_files l) as [r| |] eqn:E; simpl; try discriminate. intro H; inversion H; subst. simpl.
+  rewrite (norm_files_idem _ _ E). reflexivity.
+Qed.
+
+Lemma massage_items_idem popv d : forall d', massage_items popv d = Ok d' -> massage_items false d' = Ok d'.
+Proof.
+  induction d as [|[k v] d IH]; intros d' H; simpl in H.
+  - inversion H; reflexivity.
+  - match type of H with bind ?X _ = _ => destruct X as [v'| |] eqn:Ev end; simpl in H; try discriminate.
+    destruct (massage_items popv d) as [r| |] eqn:Er; simpl in H; try discriminate. inversion H; subst.
+    simpl. rewrite (IH r eq_refl).
+    destruct (String.eqb k "fragment_files"); [rewrite (norm_files_v_idem _ _ Ev); reflexivity|].
+    destruct (String.eqb k "fragment_separators"); [rewrite (norm_separators_idem _ _ Ev); reflexivity|].
+    destruct (String.eqb k "provenance"); [reflexivity|].
+    destruct (String.eqb k "connectivity"); [rewrite (norm_connectivity_idem _ _ Ev); reflexivity|].
+    inversion Ev; subst. reflexivity.
+Qed.
+
+(** the normalisation is idempotent (the second pass without the version pop, which cannot be repeated) *)
+Theorem massage_idempotent popv t t' : massage popv t = Ok t' -> massage false t' = Ok t'.
+Proof.
+  destruct t as [| |d| |]; simpl; try discriminate.
+  destruct (massage_items popv d) as [d'| |] eqn:E; simpl; try discriminate. intro H; inversion H; subst. simpl.
+  rewrite (massage_items_idem _ _ _ E). reflexivity.
+Qed.
+
+(** compare_molrecs is compare_recursive on the normalised records *)
+Theorem molrecs_is_recursive o e c e' c' :
+  massage true e = Ok e' -> massage true c = Ok c' -> compare_molrecs o e c = compare_recursive o e' c'.
+Proof. unfold compare_molrecs. intros -> ->. reflexivity. Qed.
+
+(** the generator version is forgiven: the version entry of provenance does not reach compare_recursive *)
+Fixpoint set_val (k : string) (v : tree) (d : list (string * tree)) : list (string * tree) :=
+  match d with
+  | [] => []
+  | (k', v') :: r => if String.eqb k k' then (k', v) :: r else (k', v') :: set_val k v r
+  end.
+
+Lemma remove_key_set k v d : remove_key k (set_val k v d) = remove_key k d.
+Proof.
+  induction d as [|[k' v'] d IH]; simpl; [reflexivity|]. destruct (String.eqb k k') eqn:E; simpl; rewrite E; [reflexivity|].
+  rewrite IH. reflexivity.
+Qed.
+
+Lemma keys_set k v d : keys (set_val k v d) = keys d.
+Proof.
+  unfold keys. induction d as [|[k' v'] d IH]; simpl; [reflexivity|]. destruct (String.eqb k k'); simpl; [reflexivity|].
+  rewrite IH. reflexivity.
+Qed.
+
+Theorem version_forgiven v d :
+  norm_provenance true (TDict (set_val "version" v d)) = norm_provenance true (TDict d).
+Proof. simpl. rewrite keys_set, remove_key_set. reflexivity. Qed.
+
+(** a bond listed as (i, j) or (j, i) normalises to the same triple *)
+Theorem bond_orientation na nb a b bo : a <> b ->
+  norm_bond (TList [TSc na (SInt a); TSc nb (SInt b); bo]) = norm_bond (TList [TSc nb (SInt b); TSc na (SInt a); bo]).
+Proof.
+  intro H. simpl. destruct (b <? a)%Z eqn:E1; destruct (a <? b)%Z eqn:E2; try reflexivity.
+  - apply Z.ltb_lt in E1, E2. lia.
+  - apply Z.ltb_ge in E1, E2. lia.
+Qed.
